@@ -69,7 +69,8 @@ impl TemplateParser for SimpleTemplate {
             }
             should_escape = false;
         }
-        if !buf.is_empty() {
+        // An empty template is a single empty string part.
+        if !buf.is_empty() || result.is_empty() {
             result.push(TemplatePart::Str(buf));
         }
         Ok(result)
@@ -156,7 +157,8 @@ impl TemplateParser for ExpressionTemplate {
             }
             should_escape = false;
         }
-        if !buf.is_empty() {
+        // An empty template is a single empty string part.
+        if !buf.is_empty() || parts.is_empty() {
             parts.push(TemplatePart::Str(buf));
         }
         Ok(parts)
